@@ -27,15 +27,17 @@ Regs == { [kind |-> "plain", method |-> "-", public |-> p, rotated |-> r, nosecr
         \cup { [kind |-> "oidc", method |-> m, public |-> FALSE, rotated |-> 0, nosecret |-> TRUE] : m \in Methods }
 (* basic_body_other: the client's credentials in the Basic header AND the client_id of ANOTHER registered client in the
    body: the header identifies the client, the body's client_id must not change who is authenticated *)
-Transports == {"basic", "body", "both", "neither", "basic_undecodable", "basic_id_only", "body_id_only", "basic_body_other"}
+(* basic_id_body_secret: the client id (and an empty password) in the Basic header, the secret in the body WITHOUT a client_id:
+   the header is what identifies the client, so its (empty) password is the secret that was presented *)
+Transports == {"basic", "body", "both", "neither", "basic_undecodable", "basic_id_only", "body_id_only", "basic_body_other", "basic_id_body_secret"}
 Secrets == {"current", "rotated", "wrong", "empty", "other_client"}
 Endpoints == {"token:client_credentials", "token:password", "token:refresh_token", "revoke", "par", "device_auth"}
 
 (* does the header / the body carry a non-empty secret? *)
 SecretSent(sr) == sr # "empty"
 HeaderSecret(t, sr) == t \in {"basic", "both", "basic_body_other"} /\ SecretSent(sr)
-BodySecret(t, sr) == t \in {"body", "both"} /\ SecretSent(sr)
-HasBasic(t) == t \in {"basic", "both", "basic_undecodable", "basic_id_only", "basic_body_other"}
+BodySecret(t, sr) == t \in {"body", "both", "basic_id_body_secret"} /\ SecretSent(sr)
+HasBasic(t) == t \in {"basic", "both", "basic_undecodable", "basic_id_only", "basic_body_other", "basic_id_body_secret"}
 (* the device authorization endpoint always carries client_id in the body (it compares it) *)
 BodyID(t, ep) == t \in {"body", "both", "body_id_only"} \/ ep = "device_auth"
 SecretOK(reg, sr) == ~reg.nosecret /\ (sr = "current" \/ (sr = "rotated" /\ reg.rotated > 0))
@@ -48,7 +50,7 @@ Auth(reg, t, sr, known, ep) ==
   ELSE IF reg.kind = "oidc" /\ HeaderSecret(t, sr) /\ reg.method # "client_secret_basic" THEN "invalid_client"
   ELSE IF reg.kind = "oidc" /\ reg.method # "none" /\ reg.public THEN "invalid_client"
   ELSE IF reg.public THEN "ok"
-  ELSE IF (HasBasic(t) /\ t # "basic_id_only" /\ SecretOK(reg, sr)) \/ (~HasBasic(t) /\ t = "body" /\ SecretOK(reg, sr)) THEN "ok"
+  ELSE IF (HasBasic(t) /\ t \notin {"basic_id_only", "basic_id_body_secret"} /\ SecretOK(reg, sr)) \/ (~HasBasic(t) /\ t = "body" /\ SecretOK(reg, sr)) THEN "ok"
   ELSE "invalid_client"
 
 (* what the endpoint answers *)
@@ -63,7 +65,7 @@ Rows == { [reg |-> reg, transport |-> t, secret |-> sr, known |-> k, endpoint |-
            auth |-> Auth(reg, t, sr, k, ep), outcome |-> Outcome(reg, t, sr, k, ep)] :
             reg \in Regs, t \in Transports, sr \in Secrets, k \in BOOLEAN, ep \in Endpoints }
 ValidRows == { r \in Rows : (r.transport \in {"neither", "basic_undecodable", "basic_id_only", "body_id_only"} => r.secret = "empty")
-                            /\ (r.transport = "basic_body_other" => r.endpoint # "device_auth")     \* that endpoint compares the body's client_id itself
+                            /\ (r.transport \in {"basic_body_other", "basic_id_body_secret"} => r.endpoint # "device_auth")     \* that endpoint compares the body's client_id itself
                             /\ (r.secret = "rotated" => r.reg.rotated > 0) }
 
 (* relations *)
@@ -71,6 +73,7 @@ ASSUME \A r \in ValidRows : (r.auth = "ok" /\ ~r.reg.public) => r.secret \in {"c
 ASSUME \A r \in ValidRows : (r.endpoint = "token:client_credentials" /\ r.reg.public) => r.outcome # "ok"
 ASSUME \A r \in ValidRows : r.secret \in {"wrong", "other_client"} => (r.auth = "ok" => r.reg.public)
 ASSUME \A r \in ValidRows : r.reg.nosecret => r.auth # "ok"
+ASSUME \A r \in ValidRows : (r.transport = "basic_id_body_secret" /\ ~r.reg.public) => r.auth # "ok"
 ASSUME \A r \in ValidRows : r.transport = "basic_body_other" =>
           \E q \in ValidRows : q.transport = "basic" /\ q.reg = r.reg /\ q.secret = r.secret /\ q.known = r.known /\ q.endpoint = r.endpoint
                                  /\ (q.outcome = r.outcome \/ (r.endpoint = "par" /\ q.outcome = "ok" /\ r.outcome = "invalid_request"))
